@@ -1028,8 +1028,13 @@ class Interp:
             try:
                 return base[idx]
             except (KeyError, IndexError) as exc:
-                raise ExcRaised(Ref(f'builtin:{type(exc).__name__}'))
+                r_ = ExcRaised(Ref(f'builtin:{type(exc).__name__}'))
+                # a missing key / index of a native container the package itself built: Python's own verdict, as good as a raise statement
+                r_.explicit = getattr(n, '_module', None) is not None and isinstance(base, (dict, list, tuple, str)) and _concrete(idx)
+                raise r_
         if isinstance(n, ast.JoinedStr):
+            if self.world.__dict__.get('text_budget', 1) < 0:
+                raise Unmodelled('texts longer than 4 MB in total were built (a message that multiplies at every level?)')
             parts = []
             for v in n.values:
                 if isinstance(v, ast.Constant):
@@ -1077,7 +1082,11 @@ class Interp:
                         raise ExcRaised(Ref(f'builtin:{type(exc).__name__}'))
                 else:
                     return Opaque('fstring')
-            return ''.join(parts)
+            text_ = ''.join(parts)
+            if len(text_) > 65536:
+                # long texts are charged to a budget of the world: a message that multiplies at every level is given up on, not computed
+                self.world.__dict__['text_budget'] = self.world.__dict__.get('text_budget', 4 << 20) - len(text_)
+            return text_
         if isinstance(n, (ast.ListComp, ast.GeneratorExp, ast.SetComp)):
             out = []
             self._comp(n.generators, 0, lambda: out.append(self.ev(n.elt)))
@@ -1150,6 +1159,9 @@ class Interp:
                 return getattr(recv, fn.attr)(*args, **kwargs)
             if isinstance(recv, Opaque) and recv.label not in ('aug',) and not isinstance(fn.value, ast.Name):
                 return Opaque(f'{recv.label}.{fn.attr}()')
+            if isinstance(recv, Rec) and 'cls' in recv.f and isinstance(recv.f['cls'], str) and self.depth >= self.max_depth and self.inline_pkg \
+                    and self._find_method(recv.f['cls'], fn.attr)[1] is not None:
+                raise Unmodelled(f'inlining deeper than {self.max_depth} calls at {fn.attr}')
             if isinstance(recv, Rec) and 'cls' in recv.f and isinstance(recv.f['cls'], str) and self.depth < self.max_depth \
                     and not (isinstance(fn.value, ast.Name) and fn.value.id in self.effects):
                 if fn.attr in recv.f and isinstance(recv.f[fn.attr], (LambdaVal, BoundMethod, PyModel, Ref, RawFunc, Closure, Partial)):
@@ -1883,7 +1895,9 @@ class Interp:
     def _safe_ev(self, node):
         try:
             return self.ev(node)
-        except Unmodelled:
+        except Unmodelled as exc:
+            if 'inlining deeper than' in str(exc) or 'budget exceeded' in str(exc) or 'texts longer than' in str(exc):
+                raise           # resource limits of the interpretation are verdicts of their own (recursion without end ...), not unknown values
             return Opaque(ast.unparse(node)[:40])
 
     # ------------------------------------------------------------------------------------------------------
@@ -3121,6 +3135,12 @@ def _signature_of(self, func):
     if isinstance(func, Ref):
         m, node = self.a.res.lookup(func.ref)
         if isinstance(node, ast.FunctionDef):
+            if self._effective_decorators(m, node):
+                # the name stands for what its decorators produced: the signature is that object's (the wrapped function's only
+                # when the wrapper says so, functools.wraps)
+                obj_ = self._func_object(func.ref, m, node)
+                if not isinstance(obj_, Ref):
+                    return self._signature_of(obj_)
             return Sig(self.a, m, node, self.world)
     if isinstance(func, RawFunc):
         return Sig(self.a, func.module, func.fnode, self.world)
